@@ -116,6 +116,13 @@ class Renderer:
         r = repr(v)
         if "inf" in r or "nan" in r:
             raise ValueError("not JSON")
+        if self.p(0.25) and "e" not in r and "." in r:
+            # the same value as <integer> e|E -<k>  (RFC 9535 number = int [frac] [exp]; e.g. 0.5 = 5E-1, 1.5 = 15e-1)
+            ip, fr = r.split(".")
+            digits = int(ip.lstrip("-") + fr)
+            if digits and fr != "0" and len(fr) < 12:
+                self.features.add("int-mantissa-neg-exp")
+                return "%s%d%s-%d" % ("-" if r.startswith("-") else "", digits, self.pick(["e", "E"]), len(fr))
         if self.p(0.2) and "e" not in r and "." in r:
             self.features.add("trailing-zero")
             r += "0"
@@ -297,6 +304,11 @@ class Renderer:
             return self.pick(["undefined", "missing"])
         if k == "list":
             return "[" + (self.S() + "," + self.S()).join(self.literal(v) for v in e[1]) + "]"
+        if k == "par":
+            return self.paren(self.expr(e[1], 0))
+        if k in ("cmp", "and", "or", "not", "test", "in", "has", "re"):
+            # a parenthesised expression as an operand (accepted by the library, not RFC 9535)
+            return self.paren(self.expr(e, 0))
         raise ValueError(e)
 
     def call(self, e) -> str:
